@@ -82,6 +82,14 @@ impl<'a> Ctx<'a> {
         NDelIt { tag, room, id, ent, mdate, date, author, sig_ok: entry.verify().is_ok(), entry }
     }
     fn edel(&mut self, room: u64, e: &EdgeIt, date: i64, author: u64, tamper: Tamper) -> EDelIt {
+        self.edel_c(room, e, e.cdate, date, author, tamper)
+    }
+    /// a deletion record for the reference `e` that names another creation date than `e` carries
+    fn edel_c(&mut self, room: u64, e0: &EdgeIt, cdate: i64, date: i64, author: u64, tamper: Tamper) -> EDelIt {
+        let mut e = e0.clone();
+        e.cdate = cdate;
+        e.edge.cdate = cdate;
+        let e = &e;
         let date = date + self.nonce(tamper);
         let mut entry = EdgeDeletionEntry::build(cuid(self.case, room), &e.edge, date, self.rig.keys.sk(author));
         let mut date = date;
@@ -398,6 +406,42 @@ fn directed(ctx: &mut Ctx, which: usize) -> Option<Scn> {
             Scn { defs, pre_nodes: vec![p, q, o1, o2], pre_edges: vec![], steps: vec![Step::Nodes(1, vec![late, early, own_late, own_early])],
                 what: "moves: right in the room left at the date of the new version".into() }
         }
+        // reference tombstones that name another creation date than the stored reference: the stored reference of
+        // key 1 is NOT designated by them (the author look-up and the delete both use the exact date), so a member
+        // with the own-rows right only (key 2) gets them stored but the reference stays; the exact date needs the all-rows right
+        12 => {
+            let defs = vec![(1, simple_room(&[(1, 0, true, true), (2, 0, true, false)]))];
+            let p = ctx.node(100, Some(1), Some(1), gj(1, "p"), d, 1, Tamper::No);
+            let q = ctx.node(101, Some(1), Some(2), gj(2, "q"), d, 1, Tamper::No);
+            let e = ctx.edge(100, Some(1), 1, 101, d, 1, Tamper::No);
+            let e2 = ctx.edge(100, Some(1), 2, 101, d, 1, Tamper::No);
+            let later2 = ctx.edel_c(1, &e, d + 5, d + 20, 2, Tamper::No);
+            let plus1 = ctx.edel_c(1, &e, d + 1, d + 21, 2, Tamper::No);
+            let minus1 = ctx.edel_c(1, &e, d - 1, d + 22, 2, Tamper::No);
+            let now2 = ctx.edel_c(1, &e, d + 23, d + 23, 2, Tamper::No);
+            let exact2 = ctx.edel(1, &e, d + 24, 2, Tamper::No);                 // refused: another author's reference, own-rows right
+            let later1 = ctx.edel_c(1, &e2, d + 5, d + 25, 1, Tamper::No);       // all-rows right, still designates nothing
+            let exact1 = ctx.edel(1, &e2, d + 26, 1, Tamper::No);                // removes e2
+            Scn { defs, pre_nodes: vec![p, q], pre_edges: vec![e, e2], steps: vec![
+                Step::EDels(vec![later2]), Step::EDels(vec![plus1, minus1, now2]), Step::EDels(vec![exact2]),
+                Step::EDels(vec![later1]), Step::EDels(vec![exact1])], what: "reference tombstones naming another creation date".into() }
+        }
+        // an explicit null for a field that is NOT nullable but has a default, for every scalar type, interleaved with
+        // conforming rows (field absent: default applies; proper value; null for nullable fields): the null rows are refused
+        13 => {
+            let defs = vec![(1, simple_room(&[(1, 0, true, true)]))];
+            let f = |n: &str| dm.field(3, n).short;
+            let mut b = vec![];
+            let mut id = 100;
+            for n in ["name", "di", "df", "db", "dk", "dj"] {
+                b.push(ctx.node(id, Some(1), Some(3), Some(format!("{{\"{}\":null}}", f(n))), d + 1, 1, Tamper::No)); id += 1;      // refused
+                b.push(ctx.node(id, Some(1), Some(3), Some("{}".into()), d + 1, 1, Tamper::No)); id += 1;                               // stored
+            }
+            b.push(ctx.node(id, Some(1), Some(3), Some(format!("{{\"{}\":\"n\",\"{}\":4,\"{}\":2.5,\"{}\":false,\"{}\":\"YWJj\",\"{}\":[1]}}",
+                f("name"), f("di"), f("df"), f("db"), f("dk"), f("dj"))), d + 1, 1, Tamper::No)); id += 1;                                // stored
+            b.push(ctx.node(id, Some(1), Some(3), Some(format!("{{\"{}\":null,\"{}\":null,\"{}\":null,\"{}\":null}}", f("f"), f("b"), f("k"), f("j"))), d + 1, 1, Tamper::No)); // stored: nullable
+            Scn { defs, pre_nodes: vec![], pre_edges: vec![], steps: vec![Step::Nodes(1, b)], what: "explicit null on defaulted, non nullable fields".into() }
+        }
         _ => return None,
     })
 }
@@ -506,6 +550,8 @@ fn random_scn(ctx: &mut Ctx, rng: &mut Rng) -> Scn {
                                 3 => Some(format!("{{\"{}\":\"v\",\"{}\":null}}", name, dm.field(1, "n").short)),
                                 4 => Some(format!("{{\"{}\":\"{}\"}}", name, "y".repeat(820 + rng.below(60) as usize))),   // around the size limit
                                 5 => Some(format!("{{\"{}\":\"v\",\"{}\":4}}", name, dm.field(1, "n").short)),
+                                6 if e == 3 => Some(format!("{{\"{}\":null}}", dm.field(3, *rng.pick(&["name", "di", "df", "db", "dk", "dj"])).short)),   // null on a defaulted field
+                                7 if e == 3 => Some(format!("{{\"{}\":null,\"{}\":7}}", dm.field(3, *rng.pick(&["f", "b", "k", "j"])).short, dm.field(3, "di").short)),   // null on a nullable field
                                 _ => good_json(dm, ent, "new"),
                             };
                             let id = next_id; next_id += 1;
@@ -570,7 +616,9 @@ fn random_scn(ctx: &mut Ctx, rng: &mut Rng) -> Scn {
                     let all = rng.chance(1, 2);
                     let (mut k, dd) = pick_entitled(rng, rooms.get(&room), keys, e.ent.unwrap_or(1), &dates, all);
                     if rng.chance(1, 2) { k = e.author; }
-                    batch.push(ctx.edel(room, &e, dd.max(e.cdate), k, tamper));
+                    // mostly the exact creation date of the reference; sometimes one next to it, later, or the deletion date
+                    let cdate = match rng.below(8) { 0 => e.cdate + 1, 1 => e.cdate - 1, 2 => e.cdate + rng.range(2, 5000), 3 => dd.max(e.cdate), _ => e.cdate };
+                    batch.push(ctx.edel_c(room, &e, cdate, dd.max(e.cdate), k, tamper));
                 }
                 steps.push(Step::EDels(batch));
             }
